@@ -35,6 +35,12 @@ CLAIMS = {
             "7 C16", "relational: two exact contracts over one shared spec predicate (Verus)"),
     "C17": ("Verus proves Freeze/UpdateAdmins succeed only for a listed admin while mutable and write exactly the new list/flag, every other handler leaves the admin list alone, allowance/permission changes require a listed admin; lemmas: immutable is absorbing over any history.",
             "7 C17", "function contracts + frames + absorbing-state lemma (Verus)"),
+    "C09": ("Verus proves for cw4-group (create, update_members with both loops, dispatcher) and cw4-stake (update_membership, bond/unbond/claim, dispatcher) that TOTAL == sum of the member table is an inductive invariant, that every member/total write passes the current block height and every at-height query goes through may_load_at_height; the sentence 'value at the start of block h' is then a lemma proved over the ASSUMED SnapshotMap model (first changelog entry >= h, else current) for every history of writes at non-decreasing heights and every h. The raw-key layout of member_key is a bounded stand-in (thorough tier).",
+            "7 C09", "function contracts + sum invariant + loop invariants + snapshot lemma over the assumed dependency model (Verus)"),
+    "C10": ("Verus proves on cw4-stake: only the configured native denom / cw20 contract is accepted and the stake grows by exactly the provided amount; unbond checked-subtracts and creates a claim maturing at unbonding_period.after(block); Claim releases exactly the matured claims (assumed Claims contract) and emits exactly one payout of that amount to the caller; calc_weight == stake / tokens_per_weight with no truncation (fix a148515), None iff stake < min_bond, and the member entry always equals it; lemma: books = stakes + claims moves only by bond (+amount) and claim (-payout).",
+            "7 C10", "function contracts + books lemma (Verus)"),
+    "C14": ("Verus proves update_members asserts the admin before any write and returns diffs that form a chain of single-member writes with the true previous and new weight of exactly the touched addresses (ghost state sequence), that execute_update_members / update_membership emit exactly one MemberChangedHook message per registered hook carrying those diffs (none when nothing changed), and that UpdateAdmin/AddHook/RemoveHook are wired to the admin-checked cw-controllers functions (assumed contracts).",
+            "7 C14", "function contracts + ghost diff chain + assumed cw-controllers contracts (Verus)"),
 }
 
 NOT_YET = "machinery for this property is not built yet in this round (see DESIGN.md section 11 build order); not claimed until its unit verifies on the unchanged tree"
